@@ -86,11 +86,7 @@ func runNodeHistory(r *Recorder, rng *rand.Rand, accts []*Account, nOps int) {
 		r.EndBlock()
 		// sometimes let several empty blocks pass (reward accrual, offline detection, adjustment period)
 		if rng.Intn(4) == 0 {
-			n := 1 + rng.Intn(25)
-			for k := 0; k < n && c.Halted == ""; k++ {
-				r.BeginBlock()
-				r.EndBlock()
-			}
+			r.Blocks(1 + rng.Intn(25))
 		}
 	}
 }
